@@ -193,6 +193,58 @@ def integerise(rng, c, positive=False):
     return c
 
 
+NARROW = {"uint8": (0, 255), "uint16": (0, 65535), "int16": (-32768, 32767), "int32": (-2 ** 31, 2 ** 31 - 1),
+          "uint32": (0, 2 ** 32 - 1), "int8": (-128, 127), "float32": None}
+
+
+def narrow_dtypes(rng, c, positive=False, wide=0.5):
+    """Criteria stored in narrow / unsigned numpy types (what a caller gets from an image, a sensor file or a
+    compact table).  The values are made to fit exactly; half of the time some of them sit near the ends of the type's
+    range, so that differences and sums of two values no longer fit the type itself."""
+    mtx = c["matrix"]
+    m = len(c["weights"])
+    one = rng.random() < 0.4 and rng.choice(sorted(NARROW))
+    pair = None
+    if not one and m >= 2 and rng.random() < 0.5:
+        # two widths of one kind side by side, the narrower one first
+        pair = rng.choice([("float32", "float64"), ("int32", "int64"), ("int16", "int64"), ("uint8", "uint32")])
+    dts = []
+    for j in range(m):
+        t = one or rng.choice(sorted(NARROW) + ["int64", "float64"])
+        if pair:
+            t = pair[0] if j == 0 else (pair[1] if j == m - 1 else rng.choice(pair))
+        dts.append(t)
+        if pair and t == pair[1]:
+            # values that need the wider type
+            for r in mtx:
+                if t == "float64":
+                    r[j] = r[j] + 1.0 / 3.0 if not float(r[j]).is_integer() else r[j] + 0.1
+                else:
+                    r[j] = float(abs(int(round(r[j]))) + (5_000_000_000 if t == "int64" else 3_000_000_000))
+            continue
+        if t in ("float64", "int64") and t != "int64":
+            continue
+        if t == "float32":
+            for r in mtx:
+                r[j] = float(round(r[j] * 8) / 8) if abs(r[j]) < 2 ** 20 else float(round(r[j]))
+                if positive and r[j] <= 0:
+                    r[j] = 0.125
+            continue
+        lo, hi = NARROW.get(t, (-2 ** 62, 2 ** 62))
+        ends = rng.random() < wide and t != "int64"
+        for r in mtx:
+            v = int(round(r[j]))
+            if ends and rng.random() < 0.5:
+                v = rng.choice([lo, lo + 1, lo + rng.randint(0, 40), hi, hi - 1, hi - rng.randint(0, 40)])
+            v = min(max(v, lo), hi)
+            if positive and v < 1:
+                v = 1
+            r[j] = float(v)
+    c["dtypes"] = dts
+    c["tags"] = list(c.get("tags", [])) + ["narrow_dtypes"]
+    return c
+
+
 def all_small_matrices(nmax, mmax, alphabet=(0, 1, 2)):
     """Exhaustive enumeration: every matrix n<=nmax, m<=mmax over the alphabet,
     every objective vector."""
